@@ -79,6 +79,11 @@ theorem le_bump (d : Nat → Nat) (id n i : Nat) : d i ≤ bump d id n i := by
 theorem bump_bump (d : Nat → Nat) (id m n : Nat) : bump (bump d id m) id n = bump d id (m + n) := by
   funext i; unfold bump; split <;> omega
 
+theorem WfS.weaken_hole {a : Sk} {hole : Option Nat} (h : WfS a none) : WfS a hole :=
+  ⟨h.q, h.i, h.t, ⟨h.c.nodup, h.c.lt, h.c.sock, h.c.qNodup, h.c.cq, fun p hp fd hfd => by
+    obtain ⟨c, hc, h1, h2⟩ := h.c.qc p hp fd hfd
+    exact ⟨c, hc, h1, h2.imp_right (fun hh => by cases hh)⟩⟩, h.s, h.k, h.tok⟩
+
 /-! ### `removeFromConn` -/
 
 theorem step_rfc {xf xi d} {a : Sk} {hole} {k : Nat} {e : QSk} (_h : WfS a hole) (hq : a.q? k = some e) :
